@@ -73,3 +73,8 @@ func (verifTimeout) Temporary() bool { return true }
 func verifBareConn(cfg *Config, isClient bool) *Conn {
 	return &Conn{pconn: &verifPConn{}, remoteAddr: verifAddr{}, config: cfg, isClient: isClient}
 }
+
+// handshake header length of this stack, and the extra bytes a ClientHello carries between session id and
+// cipher suites (the datagram stack's empty cookie vector)
+const vhsHeaderLen = 12
+const vhsHelloExtra = 1
